@@ -23,7 +23,7 @@ NWORKERS = int(os.environ.get('VERIF_WORKERS', '16'))
 SURVEY = bool(os.environ.get('VERIF_SURVEY'))
 
 DEFAULTS = {
-    'quick': {'runs': 4000, 'budget_s': 25.0, 'chunk': 100},
+    'quick': {'runs': 10 ** 9, 'budget_s': 20.0, 'chunk': 100},
     'thorough': {'runs': 10 ** 9, 'budget_s': 360.0, 'chunk': 400},
 }
 
